@@ -1,7 +1,7 @@
 from dataclasses import dataclass
 from typing import cast
 
-from prosemirror.model import ContentMatch, Node, NodeRange, NodeType, Slice
+from prosemirror.model import ContentMatch, Fragment, Node, NodeRange, NodeType, Slice
 from prosemirror.utils import Attrs
 
 
@@ -15,18 +15,30 @@ def lift_target(range_: NodeRange) -> int | None:
     parent = range_.parent
     content = parent.content.cut_by_index(range_.start_index, range_.end_index)
     depth = range_.depth
+    # whether lifting out of the levels passed so far leaves a split-off part of the
+    # ancestor before / after the lifted content (Transform.lift keeps those)
+    split_before = split_after = False
     while True:
         node = range_.from_.node(depth)
         index = range_.from_.index(depth)
         end_index = range_.to.index_after(depth)
-        if depth < range_.depth and node.can_replace(index, end_index, content):
-            return depth
+        if depth < range_.depth:
+            inner = range_.from_.node(depth + 1)
+            lifted = content
+            if split_before:
+                lifted = lifted.add_to_start(inner.copy(Fragment.empty))
+            if split_after:
+                lifted = lifted.add_to_end(inner.copy(Fragment.empty))
+            if node.can_replace(index, end_index, lifted):
+                return depth
         if (
             depth == 0
             or node.type.spec.get("isolating")
             or not can_cut(node, index, end_index)
         ):
             break
+        split_before = split_before or index > 0
+        split_after = split_after or end_index < node.child_count
         depth -= 1
 
     return None
